@@ -43,7 +43,7 @@ class C20(Check):
     technique = ("Coq proof over an executable model of the range-for loop over enumerate()/reverse() (iterator = position, explicit fuel, "
                  "container threaded through the loop; invariant proofs by induction) + extraction-based differential test against the C++ "
                  "under AddressSanitizer for every container kind and value category")
-    level_text = ("Fifteen theorems in Coq for ALL element types, ranges of ANY length (also empty) and ANY update function: the range-for over "
+    level_text = ("Sixteen theorems in Coq for ALL element types, ranges of ANY length (also empty) and ANY update function: the range-for over "
                   "enumerate(c) ends within length+1 tests of `b != e` (so after exactly length(c) iterations), never dereferences a non-element, "
                   "visits exactly (0,c0),(1,c1),... and leaves the container as [f 0 c0; f 1 c1; ...] when the body assigns f index value through "
                   "the proxy (map g c for an index-blind body, c for a read-only one); the same for owned (temporary / moved / initializer-list) "
@@ -78,7 +78,9 @@ class C20(Check):
             "order with and without write-through, always followed by reading ALL containers; and RELOCATION scenarios for owning adaptors (enumerate/reverse of a temporary vector, list, "
             "std::array, fixed_vector and of a braced list, kept in a variable): copied, moved, copy-/move-assigned, returned by value through a "
             "non-elided path, pushed into a reallocating std::vector, moved between std::optionals, with the source then destroyed or reassigned, "
-            "after which the copy / target (and the source when alive) is iterated; a case is non-trivial when the range has at least one element; distinct = distinct case line")
+            "after which the copy / target (and the source when alive) is iterated; MANUAL iteration over begin()/end() of stored adaptors: ++it, it++, "
+            "the old value returned by it++, a copied iterator continued next to the original, std::for_each (enumerate iterator: nothing beyond "
+            "the operations it declares), for reverse also ==, std::distance, std::next, copying out; a case is non-trivial when the range has at least one element; distinct = distinct case line")
     modelled_note = ("modelled, not verified: overload resolution, lifetime of temporaries, the underlying containers' iterators and "
                      "std::reverse_iterator (a position / a base position in the model)")
 
@@ -130,6 +132,14 @@ class C20(Check):
                         for _ in range(1 if tier == "quick" else 5):
                             l1, l2 = rng.sample(range(-50, 1000), n), rng.sample(range(-50, 1000), n)
                             yield "ow %s %s %s %s %s" % (sc, ad, kind, wl(l1), wl(l2)), "owned-" + sc
+        # MANUAL iteration over begin()/end(): ++it, it++, the old value returned by it++, a copied iterator continued,
+        # std::for_each; for reverse also ==, std::distance, std::next, copying out
+        for ad in ("en", "rv"):
+            for kind in ("vec", "list", "map", "fv"):
+                for mode in "lr":
+                    for n in range(0, maxn + 1):
+                        for l in [list(range(10, 10 + n))] + [rng.sample(range(-50, 1000), n) for _ in range(max(1, reps // 2))]:
+                            yield "mi %s %s %s %s" % (ad, kind, mode, wl(l)), "manual"
         # longer ranges for the kinds whose length is not a template parameter
         for _ in range(60 if tier == "quick" else 1500):
             ad = rng.choice(("en", "rv"))
